@@ -3,6 +3,7 @@ package main
 
 import (
 	"fmt"
+	"os"
 	"sort"
 	"strings"
 
@@ -10,6 +11,7 @@ import (
 	"github.com/pinealctx/neptune/ds/tree/btree"
 
 	"verifh/ev"
+	"verifh/mc"
 	"verifh/seq"
 )
 
@@ -541,5 +543,11 @@ func main() {
 			OnNew: func(s *wrap) string { return wrapCheck(s, 4) }})
 	})
 	seq.Parallel(8, jobs)
+	if r.Only == "" {
+		if nd := mc.DriveBin(r, os.Getenv("VERIF_SCHED_BIN")); nd != "" && r.NViolations() == 0 {
+			fmt.Println("engine-S companion failed (machinery error, not a verdict):", nd)
+			r.Finish0(2)
+		}
+	}
 	r.Finish()
 }
